@@ -230,6 +230,12 @@ class MinimizerIMinuit(MinimizerBase):
 
     @property
     def parameter_errors(self):
+        if self._par_err is None and self.did_fit and self._par_cov_mat is None:
+            # report the uncertainties of the covariance matrix (HESSE), no matter if it has been asked for before
+            self.cov_mat
+        return self._get_parameter_errors()
+
+    def _get_parameter_errors(self):
         if self._par_err is None:
             _m = self._get_iminuit()
             if _IMINUIT_1:
@@ -389,6 +395,7 @@ class MinimizerIMinuit(MinimizerBase):
         self._did_fit = True
         self._invalidate_cache()
 
-        for _pn, _pv, _pe in zip(self.parameter_names, self.parameter_values, self.parameter_errors):
+        for _pn, _pv, _pe in zip(self.parameter_names, self.parameter_values, self._get_parameter_errors()):
             self._minimizer_param_dict[_pn] = _pv
             self._minimizer_param_dict["error_" + _pn] = _pe
+        self._par_err = None  # MIGRAD's estimates: starting step sizes only
